@@ -1,4 +1,5 @@
 import GixModel.Lemmas.C04i
+import GixModel.Lemmas.C04w
 /-
 C04 — Tree editing yields the same tree as building the result from scratch.  PROPERTY THEOREMS ONLY.
 
@@ -26,6 +27,14 @@ non-tree kind (blob, executable, link, commit; a null id makes a placeholder = n
 canonical stored trees; cursor operations need a live cursor. Also covered: kind `Tree` with the
 NULL id (an explicit placeholder directory, `upsert_null_tree_refines`). Outside: kind `Tree`
 with the empty-tree id (an entry git never writes).
+
+The literal stack loop of `write_at_pathbuf` (`Model.C04.writeLoop`, two vectors, indices into
+`parents`, binary search of the child in its parent) against the bottom-up recursion the
+theorems above are about: PROVED equal (same id, same number of `out` calls, same cache, stores
+with the same content) when the cache below the written tree is at most ONE level deep
+(`write_loop_eq_recursion_depth0`, `write_loop_eq_recursion_depth1`; `write_loop_refines_shallow`
+carries `write_refines` over to the loop for such editors). For deeper caches the equality is NOT
+proved; there the driver compares loop and recursion on every write (`writeChecked`).
 -/
 namespace GixModel.Props.C04
 open GixModel GixModel.Tree GixModel.C04
@@ -191,6 +200,64 @@ theorem history_write_matches_scratch_build (hash : List Entry → Bytes) (hh : 
   have : root = g := canonical_tree_unique hash hh _ _ w2.hashed hSg root g w4 hg (by rw [w5, h3, hfs])
   subst this
   exact ⟨ed1, calls, ed2, h1, w1⟩
+
+/-- Literal loop = recursion, depth 0: no sub-tree of the written tree is cached. Same id, same
+number of `out` calls, same cache, same store (syntactically). -/
+theorem write_loop_eq_recursion_depth0 (hash : List Entry → Bytes) (ed : Ed) (fromCursor : Bool)
+    (root0 : List Entry) (hP : aget ed.pathBuf ed.trees = some root0)
+    (hk : NoCachedKids (aerase ed.pathBuf ed.trees) ed.pathBuf root0) :
+    ∃ id calls ed', writeAt hash ed fromCursor = .ok id calls ed' ∧
+      writeAtLoop hash ed fromCursor = .done id calls ed'.trees ed'.store :=
+  GixModel.C04.write_loop_eq_recursion_depth0 hash ed fromCursor root0 hP hk
+
+/-- Literal loop = recursion, depth 1: the cached sub-trees of the written tree have no cached
+sub-trees themselves (`Depth1`). Same id, same number of `out` calls, same cache; the stores have
+the same content (the loop calls `out` for the children last-to-first, the recursion
+first-to-last, so as association lists they are permutations). -/
+theorem write_loop_eq_recursion_depth1 (hash : List Entry → Bytes) (hh : HashOk hash) (ed : Ed)
+    (fromCursor : Bool) (root0 : List Entry) (hP : aget ed.pathBuf ed.trees = some root0)
+    (ht : TreeOk root0) (hd1 : Depth1 (aerase ed.pathBuf ed.trees) ed.pathBuf root0) :
+    ∃ id calls ed' trees2 store2, writeAt hash ed fromCursor = .ok id calls ed' ∧
+      writeAtLoop hash ed fromCursor = .done id calls trees2 store2 ∧
+      ed'.trees = trees2 ∧ ∀ i, aget i ed'.store = aget i store2 :=
+  GixModel.C04.write_loop_eq_recursion_depth1 hh ed fromCursor root0 hP ht hd1
+
+/-- `write_refines` for the code's own control flow, for editors whose cache holds the root and
+direct sub-directories only (every cached path has at most one component): the literal loop never
+panics and returns the same id, call count and cache as `write`, and a store with the same content,
+so everything `write_refines` says about the result holds for what the loop returns. -/
+theorem write_loop_refines_shallow (hash : List Entry → Bytes) (hh : HashOk hash) (ed : Ed)
+    (h : InvW hash ed) (hshallow : ∀ K t, aget K ed.trees = some t → K.length ≤ 1) :
+    ∃ calls ed' root store2, write hash ed = .ok (hash root) calls ed' ∧
+      writeAtLoop hash { ed with pathBuf := [] } false = .done (hash root) calls ed'.trees store2 ∧
+      (∀ i, aget i store2 = aget i ed'.store) ∧ InvW hash ed' ∧
+      aget (hash root) ed'.store = some root ∧ Canon ed'.store root ∧
+      absStore ed'.store root = abs ed ∧ abs ed' = abs ed := by
+  obtain ⟨calls, ed', root, w1, w2, w3, w4, w5, w6⟩ := write_refines hash hh ed h
+  cases hr : aget [] ed.trees with
+  | none => have := h.inv.root; rw [hr] at this; cases this
+  | some root0 =>
+    have hd1 : Depth1 (aerase [] ed.trees) [] root0 := by
+      intro k hk e he hd
+      cases hg : aget ([] ++ [k.1.name] ++ [e.name]) ed.trees with
+      | none => exact aget_aerase_none hg
+      | some t => have := hshallow _ t hg; simp at this
+    obtain ⟨id, calls2, ed2, trees2, store2, e1, e2, e3, e4⟩ :=
+      GixModel.C04.write_loop_eq_recursion_depth1 hh { ed with pathBuf := [] } false root0 hr
+        (h.inv.trees [] root0 hr) hd1
+    have hw : write hash ed = .ok id calls2 ed2 := e1
+    rw [w1] at hw
+    cases hw
+    exact ⟨calls, ed', root, store2, w1, e3 ▸ e2, fun i => (e4 i).symm, w2, w3, w4, w5, w6⟩
+
+-- non-vacuity of the shallow-cache hypothesis: after `upsert a/b` the cache holds `[]` and `[a]`
+-- (one level), and loop and recursion both make 2 `out` calls and return the same id
+example :
+    ((runHistory encHash emptyEd [.upsert [[97], [98]] 0o100644 [1]]).map (fun ed =>
+      (ed.trees.map (·.1.length)).all (· ≤ 1) && ed.trees.length == 2 &&
+      (match write encHash ed, writeAtLoop encHash { ed with pathBuf := [] } false with
+       | .ok id c _, .done id2 c2 _ _ => id == id2 && c == c2 && c == 2
+       | _, _ => false))) = some true := by decide +kernel
 
 /-- The fresh editor satisfies the invariant and stands for the empty file system. -/
 theorem empty_editor_ok (hash : List Entry → Bytes) :
